@@ -12,6 +12,7 @@ import Hive.MonitorTimed
 import Hive.Shift
 import Hive.Cycle
 import Hive.Dispatch
+import Hive.Router
 
 open Lean Hive
 
@@ -282,6 +283,67 @@ def handleDispatch (j : Json) : Except String Json := do
     mon := mon ++ [s!"C12/vehicle-twice| one dispatcher run paired one vehicle with two requests: {calls.flatMap (·.pairs)}"]
   pure (Json.mkObj [("diff", strs (diffs.take 12)), ("mon", strs (mon.take 12))])
 
+deriving instance FromJson for Router.NLink
+
+structure RouterQuery where
+  kind : String
+  o : Pos
+  d : Pos
+  route : Route
+  nodePath : List Nat
+  pot : List (Nat × Rat)
+  slack : Rat
+  searched : Bool
+  deriving FromJson
+
+structure SnapObs where
+  cell : Cell
+  ok : Bool
+  link : Option LinkId
+  deriving FromJson
+
+structure HavQuery where
+  o : Pos
+  d : Pos
+  route : Route
+  deriving FromJson
+
+/-- C13 / C14 function-level record: one street network, its routes and junction paths -/
+def handleRouter (j : Json) : Except String Json := do
+  let net : Router.Net ← getField j "net"
+  let queries : List RouterQuery ← getField j "queries"
+  let snaps : List SnapObs ← getField j "snaps"
+  let hqs : List HavQuery ← getField j "hqueries"
+  let mut diffs : List String := []
+  let mut mon : List String := []
+  for qy in queries do
+    let model := Router.osmRoute net (fun _ _ => qy.nodePath) qy.o qy.d
+    if model != qy.route then
+      diffs := diffs ++ [s!"{qy.kind} query {repr qy.o} -> {repr qy.d}: route model={repr model} impl={repr qy.route} (junction path {qy.nodePath})"]
+    if !(Router.validRoute net qy.o qy.d qy.route) then
+      mon := mon ++ [s!"C13/route-shape| {qy.kind} query {repr qy.o} -> {repr qy.d}: the route {repr qy.route} is not a connected path of network links from the origin position to the destination position"]
+    if qy.searched then
+      match net.byId qy.o.link, net.byId qy.d.link with
+      | some src, some dst =>
+        let pot (n : Nat) : Rat := match qy.pot.find? (·.1 == n) with
+          | some p => p.2
+          | none => 1000000000000
+        if !(Router.certPath net pot src.v dst.u qy.nodePath qy.slack) then
+          let t := Router.walkTime net qy.nodePath
+          mon := mon ++ [s!"C14/not-fastest| {qy.kind} query: the junction path {qy.nodePath} from {src.v} to {dst.u} takes {repr t} s, the fastest walk takes {repr (pot dst.u)} s"]
+      | _, _ => mon := mon ++ [s!"C13/route-shape| query names a link that is not in the network"]
+  for sn in snaps do
+    if !sn.ok then
+      mon := mon ++ [s!"C13/snap| position_from_geoid of cell {sn.cell} names link {repr sn.link} but the cell it returns is not on that link"]
+  for hq in hqs do
+    let ok : Bool := match hq.route with
+      | [] => hq.o == hq.d
+      | [l] => hq.o != hq.d && l.start == hq.o.cell && l.stop == hq.d.cell
+      | _ => false
+    if !ok then
+      mon := mon ++ [s!"C13/route-shape| straight-line network {repr hq.o} -> {repr hq.d}: route {repr hq.route}"]
+  pure (Json.mkObj [("diff", strs (diffs.take 8)), ("mon", strs (mon.take 12))])
+
 /-- function-level record: one mechatronics operation -/
 def handleMech (j : Json) : Except String Json := do
   let m : Mech ← getField j "mech"
@@ -400,6 +462,10 @@ def handle (st : DState) (line : String) : DState × Json :=
       | .error e => (st, withId (Json.mkObj [("error", Json.str e)]))
     | "dispatch" =>
       match handleDispatch j with
+      | .ok r => (st, withId r)
+      | .error e => (st, withId (Json.mkObj [("error", Json.str e)]))
+    | "router" =>
+      match handleRouter j with
       | .ok r => (st, withId r)
       | .error e => (st, withId (Json.mkObj [("error", Json.str e)]))
     | "mech" =>
